@@ -7,5 +7,6 @@ CONSTANTS
   DevStderrToFd1 = FALSE
   DevValidateLate = FALSE
   DevIndexCountsSkipped = FALSE
+  DevBreakEndsFileOnly = FALSE
 INVARIANT FaultIsError
 CHECK_DEADLOCK FALSE
